@@ -211,4 +211,7 @@ def apply(facts, anchors, pinned):
             cur.crate.body_list[cur.crate.body_list.index(cur)] = nb
             h.hidden = True
             done.append((b.def_, h.def_))
+            facts.inlined = done
+            if hasattr(anchors, "adopt"):
+                anchors.adopt(h.def_)
     return done
